@@ -27,3 +27,5 @@ From QV Require Import WireSrcPins.
 Lemma tie_src_reader_go : f_src_reader_go = pin_src_reader_go. Proof. reflexivity. Qed.
 Lemma tie_src_encoding_go : f_src_encoding_go = pin_src_encoding_go. Proof. reflexivity. Qed.
 Lemma tie_src_basic_go : f_src_basic_go = pin_src_basic_go. Proof. reflexivity. Qed.
+Lemma tie_src_type_go : f_src_type_go = pin_src_type_go. Proof. reflexivity. Qed.
+Lemma tie_src_signature_go : f_src_signature_go = pin_src_signature_go. Proof. reflexivity. Qed.
